@@ -20,7 +20,7 @@ import runner, gen, props  # noqa: E402
 ALLOWED_AXIOMS = {"propext", "Classical.choice", "Quot.sound"}
 TRUSTED_BASE = [
     "Lean 4.33 kernel; axioms of every property theorem ⊆ {propext, Classical.choice, Quot.sound} (audited by #print axioms on this run); no sorry/admit/native_decide/bv_decide/own axioms (textual scan on this run)",
-    "tools/translate.py (+ translate_ctl.py, translate_export.py): that the tables, layouts, emission orders, value-codec arms, the control skeleton (constants, comparison operators, dispatch-arm orders and cache updates, flags of lib.rs / v9.rs / ipfix.rs) and the statement lists of V9::to_be_bytes / IPFix::to_be_bytes it extracts are what rustc compiles (every generated item is also exercised through the correspondence run); Lemmas/G1Arms, G2Ctl, G3Export prove that the model the theorems are about IS the interpretation of these regenerated items",
+    "tools/translate.py (+ translate_ctl.py, translate_export.py, translate_nom.py, translate_serde.py, translate_text.py): that the tables, layouts, emission orders, value-codec arms, the control skeleton (constants, comparison operators, dispatch-arm orders and cache updates, flags of lib.rs / v9.rs / ipfix.rs) and the statement lists of V9::to_be_bytes / IPFix::to_be_bytes it extracts are what rustc compiles (every generated item is also exercised through the correspondence run); Lemmas/G1Arms, G2Ctl, G3Export, G4Nom and Props/SerdeGen prove that the model the theorems are about IS the interpretation of these regenerated items; translate_text.py records a token fingerprint (SHA-256 of the comment- and layout-free token sequence) of every source file, of the file set and of the relevant Cargo.toml sections: the hand-written model parts and the shape recognisers are tied to exactly that text — any other text is reported as a fallback of the `text:` items and is then covered only by a widened correspondence search, not by the regenerated items",
     "the rest of the hand-written model (nom combinators, V5/V7 count loop, V9 record / options-data loops, IPFIX field decoding, chaining, error mapping, common-view loops, JSON shapes): MODELLED, tied to the code only by the correspondence runs of this check (differential testing, not a proof)",
     "nom 7.1.3, nom-derive 0.10.1, serde/serde_json, byteorder, mac_address, std are modelled from their semantics",
     "harness nfh canonical dump and the driver's JSON reader; Python orchestration (generation, process control, counting)",
